@@ -152,8 +152,19 @@ def py_once(ctx: core.Ctx, py: ast.Module, F_: str):
         dt_ok = isinstance(a0, ast.Name) and a0.id == params[0] and params[0] not in rebound
         starred = [ast.unparse(a.value) for a in c.args[1:] if isinstance(a, ast.Starred)]
         st_ok = params[1] in starred and params[1] not in rebound and (len(params) < 3 or (params[2] in starred and params[2] not in rebound))
-        ok = not in_loop and dt_ok and st_ok
-        why = ("inside a loop; " if in_loop else "") + ("" if dt_ok else f"time step argument `{ast.unparse(a0) if a0 is not None else None}` is not the caller's `{params[0]}`; ") + \
+        # every value the method returns comes after that evaluation: the call is not under a condition, and no `return` precedes it
+        node, conditional = c, False
+        while node in par:
+            child, node = node, par[node]
+            if isinstance(node, (ast.If, ast.IfExp, ast.ExceptHandler, ast.BoolOp, ast.Match if hasattr(ast, "Match") else ast.If)):
+                conditional = True
+            if isinstance(node, ast.Try) and child not in node.body:
+                conditional = True
+        early = [r for r in core.own_walk(fn) if isinstance(r, ast.Return) and (r.lineno, r.col_offset) < (c.lineno, c.col_offset)]
+        ret_ok = not conditional and not early
+        ok = not in_loop and dt_ok and st_ok and ret_ok
+        why = ("inside a loop; " if in_loop else "") + ("" if ret_ok else (f"a `return` at line {early[0].lineno} leaves before the compiled model is evaluated; " if early
+                                                                           else "the evaluation is under a condition; ")) + ("" if dt_ok else f"time step argument `{ast.unparse(a0) if a0 is not None else None}` is not the caller's `{params[0]}`; ") + \
               ("" if st_ok else f"state / control actuals {starred} are not the caller's own {params[1:]}")
     ctx.oblige("PY-ONCE", where, f"execute({', '.join(ast.unparse(a) for a in execs[0].args) if execs else ''})", ok, file=F_, func="Model.model",
                construct="single evaluation", msg=f"Model.model does not evaluate the compiled model once at its own arguments: {why}",
